@@ -3,4 +3,5 @@ let () = Driver.main [
   { Driver.name = "sc"; run = sc_run; judge = sc_judge };
   { Driver.name = "pkt"; run = pkt_run; judge = pkt_judge };
   { Driver.name = "map"; run = map_run; judge = map_judge };
+  { Driver.name = "keys"; run = keys_run; judge = keys_judge };
 ]
